@@ -151,6 +151,10 @@ type World struct {
 	Ticker *FakeTicker
 	Store  *setec.Store
 	Skew   atomic.Int64 // added to the store's wall clock (ns)
+	// UseRealClient routes the store's requests through the real
+	// setec.Client and an in-process transport instead of calling the
+	// scripted service directly.
+	UseRealClient bool
 
 	stamp   atomic.Int64
 	running atomic.Int64 // spawned tasks still running
